@@ -262,7 +262,10 @@ def run_check(prop, tier, seed):
 
         # ---- the specification itself, exhaustively within bounds (and the extra machinery)
         mc = mc_future.result()
-        extra = props.extra_checks(prop, tier, seed, workdir, drive, build=BUILD)
+        try:
+            extra = props.extra_checks(prop, tier, seed, workdir, drive, build=BUILD)
+        except RuntimeError as e:
+            raise MachineryError(str(e))
         for x in extra.get("violations", []):
             uniq.append(x)
 
@@ -271,12 +274,13 @@ def run_check(prop, tier, seed):
             path = os.path.join(VERIF, "replays", "%s-%d-%d.json" % (prop, seed, i))
             with open(path, "w") as f:
                 json.dump([hist], f)
-            if "reset" in hist and not reproduce(prop, path, workdir):
+            if isinstance(hist, dict) and "reset" in hist and not reproduce(prop, path, workdir):
                 raise MachineryError("violation of %s not reproduced when replaying %s" % (prop, path))
             replay_paths.append(path)
 
-        cov["states"] = sum(m.get("distinct", 0) for m in mc) or 1
-        cov["transitions"] = sum(m.get("generated", 0) for m in mc) or 1
+        if mc:
+            cov["states"] = sum(m.get("distinct", 0) for m in mc)
+            cov["transitions"] = sum(m.get("generated", 0) for m in mc)
         cov["model_checking"] = mc
         cov["exhaustive"] = bool(mc) and all(m.get("complete") for m in mc if not m.get("config", "").startswith("sim"))
         cov["traces_validated_against_impl"] = hist_count
@@ -305,7 +309,7 @@ def run_check(prop, tier, seed):
                 log("VIOLATION property=%s replay=%s" % (prop, p))
             return 1
         log("OK %s tier=%s seed=%d: %d implementation events in %d histories validated, %d model states, %.0fs"
-            % (prop, tier, seed, nlines, hist_count, cov["states"], time.time() - t0))
+            % (prop, tier, seed, nlines, hist_count, cov.get("states", 0), time.time() - t0))
         return 0
     finally:
         shutil.rmtree(workdir, ignore_errors=True)
@@ -321,6 +325,50 @@ def reproduce(prop, path, workdir):
             if prop is None or prop in ids:
                 return True
     return False
+
+
+def run_survey(tier, seed, patch=None):
+    """one pass over the trace sources judging every property at once (no model checking of the
+    specification): used to see which checks notice a change to /repo.  Prints a JSON summary."""
+    workdir = os.path.join(VERIF, "work", "survey-%d" % os.getpid())
+    shutil.rmtree(workdir, ignore_errors=True)
+    os.makedirs(workdir)
+    res = {"violated": {}, "nonconf": 0, "errors": []}
+    try:
+        try:
+            build_harness()
+        except MachineryError as e:
+            res["errors"].append("build: " + str(e)[-800:])
+            return res
+        try:
+            traces, _ = props.make_traces("ALL", tier, seed, workdir, drive)
+        except MachineryError as e:
+            # a crashing driver is itself a sign (e.g. a panic outside recover); report it
+            res["errors"].append("driver: " + str(e)[-800:])
+            traces = [t for t in glob.glob(os.path.join(workdir, "s*.ndjson")) if os.path.getsize(t) > 0]
+        try:
+            results = validate(traces, set(props.TRACE_PROPS), workdir)
+        except MachineryError as e:
+            res["errors"].append("tlc: " + str(e)[-800:])
+            results = []
+        for chunk, viol, nc, _ in results:
+            res["nonconf"] += len(nc)
+            for lineno, ids in viol:
+                for p in ids:
+                    if p not in res["violated"]:
+                        hist, lines = history_prefix(chunk, lineno)
+                        res["violated"][p] = {"tag": hist["reset"].get("tag"), "event": lines[-1]["ev"]["name"],
+                                              "ops": len(hist["ops"])}
+        for p in ("C18", "C20"):
+            try:
+                x = props.extra_checks(p, tier, seed, workdir, drive, build=BUILD)
+                if x.get("violations"):
+                    res["violated"].setdefault(p, {"tag": "extra", "event": str(x["violations"][0][0])[:200]})
+            except (RuntimeError, MachineryError) as e:
+                res["errors"].append("%s extra: %s" % (p, str(e)[-500:]))
+        return res
+    finally:
+        shutil.rmtree(workdir, ignore_errors=True)
 
 
 def run_replay(path):
@@ -348,11 +396,15 @@ def main():
     ap.add_argument("prop", nargs="?")
     ap.add_argument("--tier", default=os.environ.get("VERIF_TIER", "quick"))
     ap.add_argument("--replay")
+    ap.add_argument("--survey", action="store_true")
     a = ap.parse_args()
     seed = int(os.environ.get("VERIF_SEED", "1") or 1)
     try:
         if a.replay:
             sys.exit(run_replay(a.replay))
+        if a.survey:
+            print("SURVEY " + json.dumps(run_survey(a.tier, seed)))
+            sys.exit(0)
         if a.prop not in props.PROPS:
             log("unknown property", a.prop)
             sys.exit(2)
